@@ -47,6 +47,7 @@ impl Hist {
         let sig_seed = rng.next();
         let desc = J::obj()
             .with("sample", J::s(T::NAME))
+            .with("through_boxed_vecresampler", J::b(ctx.sub_seed(idx, 5) % 100 < 8))
             .with("cfg", cfg.json())
             .with("signal", J::s("noise"))
             .with("signal_seed", J::Int(sig_seed as i128))
@@ -56,16 +57,35 @@ impl Hist {
         if ctx.describe {
             return cr;
         }
-        let mut run = match Runner::<T>::fresh(&cfg, Sig::noise(sig_seed)) {
-            Ok(r) => r,
-            Err(e) => {
-                cr.viols.push(Viol::new("C03", "constructor_rejected_valid_cfg", e));
-                return cr;
+        // 8 % of the cases drive the instance through the object-safe VecResampler wrapper (its getters and
+        // calls must obey the same count clauses); reset / set_chunk_size are not part of that trait
+        let boxed = ctx.sub_seed(idx, 5) % 100 < 8;
+        let mut run = if boxed {
+            match crate::any::AnyRes::<T>::build(&cfg) {
+                Ok(r) => Runner::new(&cfg, Box::new(Boxed(r.boxed())), Sig::noise(sig_seed)),
+                Err(e) => {
+                    cr.viols.push(Viol::new("C03", "constructor_rejected_valid_cfg", format!("{}", e)));
+                    return cr;
+                }
+            }
+        } else {
+            match Runner::<T>::fresh(&cfg, Sig::noise(sig_seed)) {
+                Ok(r) => r,
+                Err(e) => {
+                    cr.viols.push(Viol::new("C03", "constructor_rejected_valid_cfg", e));
+                    return cr;
+                }
             }
         };
+        if boxed {
+            st.add("cases_through_boxed_vecresampler", 1.0);
+        }
         let mut frames_in = 0u64;
         let mut frames_out = 0u64;
         for op in &ops {
+            if boxed && matches!(op, Op::Reset | Op::SetChunk(_)) {
+                continue;
+            }
             let so = run.step(op);
             if let Ok((i, o)) = so.res {
                 frames_in += i as u64;
